@@ -374,7 +374,7 @@ def setup():
             return rc
     # the CLI binary used by C25 (built from /repo into the harness target directory)
     with BuildLock():
-        rc, out = sh(["cargo", "build", "--offline", "-p", "searchlite-cli", "--manifest-path", "/repo/Cargo.toml",
+        rc, out = sh(["cargo", "build", "--offline", "-p", "searchlite-cli", "--manifest-path", os.environ.get("VERIF_REPO", "/repo") + "/Cargo.toml",
                       "--target-dir", f"{HARNESS}/target/cli"], cwd=HARNESS, timeout=7200, log=log)
     if rc != 0:
         print(out[-3000:])
